@@ -123,6 +123,12 @@ def dictGetV (kv : List (Val × Val)) (key : String) : Option Val :=
   | (.str k, v) :: rest => if k == key then some v else dictGetV rest key
   | _ :: rest => dictGetV rest key
 
+/-- `d.get(key, [])` read as a list (anything else is treated as empty) -/
+def dictListOr (kv : List (Val × Val)) (key : String) : List Val :=
+  match dictGetV kv key with
+  | some (.list xs) => xs
+  | _ => []
+
 /-- Python dict semantics: a later assignment to an existing key keeps the key's position
     and replaces the value. -/
 def dictSet (kv : List (String × Val)) (k : String) (v : Val) : List (String × Val) :=
